@@ -16,10 +16,16 @@ IO_EVENTS = ('READ', 'WRITE', 'FLUSH', 'PARSE', 'HANDLER')
 
 # enumerated tolerated errors: (function, what is compared, constant)
 TOLERATED = {
-    ("async_io::Request::close", "io", "ConnectionAborted"),
-    ("async_io::Request::record_boundary", "parser", "AbortRequest"),
-    ("async_io::Token::run", "io", "ConnectionAborted"),
+    # (error kind tested, where): the functions that contain the guards are private and may be named / factored freely
+    ("io", "ConnectionAborted", "run"),         # the handler's error in the connection task => ExitStatus::ABORT
+    ("io", "ConnectionAborted", "close"),       # writeable()'s error inside close(): the epilogue is still owed
+    ("parser", "AbortRequest", "close"),        # the drain inside close(): the abort's header is retained
 }
+
+
+def tolerated(n, tol):
+    where = "close" if any(fr.body.npath.startswith("async_io::Request::close") for fr in n.frame.stack()) else "run"
+    return (tol[0], tol[1], where) in TOLERATED
 
 
 def is_io_event(ev):
@@ -199,6 +205,7 @@ def check_error_live(rep, g, ev, label):
     """R12.2/R12.3: after an Err is observed (match / `?`), no READ/WRITE/PARSE/HANDLER happens unless the
     path passed one of the enumerated tolerance guards."""
     seen_tol = set()
+    tol_ok = set()
 
     def err_edge(n, lab):
         """Is (n, lab) the edge on which a Result is known to be Err (or a ControlFlow Break from `?`)?"""
@@ -236,13 +243,23 @@ def check_error_live(rep, g, ev, label):
             return None
         x = ir.peel(de)
         # e.kind() == ErrorKind::K
-        if x[0] == 'call' and x[1] == "<std::io::ErrorKind as std::cmp::PartialEq>::eq" and len(x[2]) == 2:
+        # (also spelled `!=` with the roles of the two edges exchanged, or negated)
+        neg = False
+        while x[0] == 'un' and x[1] == 'Not':
+            neg = not neg
+            x = ir.peel(x[2])
+        if x[0] == 'call' and len(x[2]) == 2 and (x[1] in ("<std::io::ErrorKind as std::cmp::PartialEq>::eq", "<std::io::ErrorKind as std::cmp::PartialEq>::ne")
+                                                  or x[1] in ("std::cmp::PartialEq::ne", "std::cmp::PartialEq::eq")):
             a, b = ir.peel(x[2][0]), ir.peel(x[2][1])
             const = None
             for y in (a, b):
                 if y[0] == 'agg' and y[2].startswith("std::io::ErrorKind::"):
                     const = y[2].split("::")[-1]
-            if const and (isinstance(lab, tuple) and lab[0] == 'otherwise'):
+            truth = isinstance(lab, tuple) and (lab[0] == 'otherwise' or (lab[0] == 'case' and lab[1] != 0))
+            equal = truth if x[1].endswith("::eq") else not truth      # `ne` is PartialEq's provided method: !eq
+            if neg:
+                equal = not equal
+            if const and isinstance(lab, tuple) and equal:
                 return ("io", const)
         # match on parser::Error discriminant
         if x[0] == 'discr':
@@ -267,8 +284,9 @@ def check_error_live(rep, g, ev, label):
         if tol is not None:
             fn = common.fn_of(n)
             seen_tol.add((fn, tol[0], tol[1], n.loc()))
-            if (fn, tol[0], tol[1]) in TOLERATED:
+            if tolerated(n, tol):
                 kills.add(("ERR", n.frame.id))
+                tol_ok.add((fn, tol[0], tol[1]))
         # leaving the activation that observed the error: its caller sees the Err in the call result
         if n.term["k"] == "return":
             kills.add(("ERR", n.frame.id))
@@ -306,7 +324,7 @@ def check_error_live(rep, g, ev, label):
         key = "%s/%s/tolerates[%s:%s]" % (label, fn, k, c)
         # comparisons whose 'equal' edge just returns are harmless; only those that let I/O continue matter,
         # and those are exactly the ones R12.3 would flag if not enumerated
-        if (fn, k, c) in TOLERATED:
+        if (fn, k, c) in tol_ok:
             rep.ok("R12.2", key, "enumerated tolerated error", loc)
     return n_err_edges
 
